@@ -208,6 +208,7 @@ func samRecordPool() []samRec {
 }
 
 func runC03(r *core.Run) {
+	defer everyLength(r)
 	racePass(r, "race-format-sam", "the sam codec: readers each on their own stream (whole and in 7-byte reads, every corpus file), Write on shared records into separate destinations, File on one shared path; every result is compared with what the same call returned when it ran alone")
 	firstCallClause(r, "sam.")
 	texts := samTextMenu()
